@@ -31,7 +31,7 @@ RULE = (
 )
 ASSUMPTIONS = ["the text is scanned, not typeset (no TeX engine)", "family names contain no backslash (a doubled backslash in a label is a line break)"]
 BUDGET = {"quick": 300, "thorough": 3000}
-COL = {"r": "FF0000", "g": "00AA00", "b": "0000FF"}
+COL = {"r": "FF0000", "g": "FADBCE", "b": "0000FF"}   # "g": a hex colour without any decimal digit
 
 
 def colour_menu(O):
